@@ -1,7 +1,7 @@
 //! Key-keeper rig checks: C09 (and later C10 C12 C16, the host-reply part of C13, own-call part of C04).
 
 use gpa_verif::keeper::KeeperRig;
-use gpa_verif::props::{c09, c12};
+use gpa_verif::props::{c09, c12, c13};
 use gpa_verif::report::{Known, Params, Stats};
 use gpa_verif::runner::Drive;
 use std::time::Instant;
@@ -39,6 +39,18 @@ fn main() {
             let n = params.share(if th { 6_000 } else { 200 });
             Drive { params: &params, stats: &mut stats, known: &known }.run("c12.taint", 12, c12::strategy(), n, |c, s| c12::eval(&rig, &mut env.borrow_mut(), &known, c, s));
             (c12::RULE.into(), assumptions)
+        }
+        "C13" => {
+            // one long-lived agent: a v1.0 document that needs a key
+            rig.host.with(|s| s.doc = Some(gpa_verif::keyhost::StatusDoc::V1 { state: "wireserver".into() }.to_json()));
+            let agent = rig.start_agent(None);
+            if let Err(e) = rig.run_step(gpa_verif::keyhost::Step { keep_doc: true, ..Default::default() }, 2, std::time::Duration::from_secs(20)) {
+                stats.inconclusive.push(e);
+            }
+            let n = params.share(if th { 30_000 } else { 600 });
+            Drive { params: &params, stats: &mut stats, known: &known }.run("c13.host", 132, c13::host_strategy(), n, |c, s| c13::eval_host(&rig, &agent, c, s));
+            rig.stop_agent(&agent);
+            (c13::RULE_HOST.into(), assumptions)
         }
         other => {
             eprintln!("keeper: unknown property '{}'", other);
